@@ -14,6 +14,10 @@ def mk_project(ctx, plans=True, events=False, lock=True):
     st.exec(["--json", "new", "task"], b'{"title":"kept","body":"b"}')
     nst = cmdrun.Store(ctx.ergo, ctx.go, root=os.path.join(proj, "nested"))
     nst.exec(["--json", "new", "task"], b'{"title":"inner"}')
+    # a project inside proj/sub (proj/sub itself has no .ergo): `proj/sub/inner/..` names proj/sub, whose store is proj/.ergo
+    os.makedirs(os.path.join(proj, "sub/inner"))
+    ist = cmdrun.Store(ctx.ergo, ctx.go, root=os.path.join(proj, "sub/inner"))
+    ist.exec(["--json", "new", "task"], b'{"title":"innermost"}')
     d = st.dir
     data = open(os.path.join(d, "plans.jsonl"), "rb").read()
     if events:
@@ -34,6 +38,13 @@ def spellings(cwd, target):
         out.append(("./rel", ["--dir", "./" + rel]))
     if cwd == target:
         out.append(("none", []))
+    # spellings that are not clean: through a child directory and back (the child may itself be a project), `.` components, doubled slashes
+    for c in sorted(os.listdir(target)):
+        if os.path.isdir(os.path.join(target, c)) and c != ".ergo":
+            out.append(("abs/child/..", ["--dir", target + "/" + c + "/.."]))
+            out.append(("rel/child/..", ["--dir", (rel if rel != "." else ".") + "/" + c + "/.."]))
+    out.append(("abs/.", ["--dir", target + "/."]))
+    out.append(("abs//", ["--dir", target.replace("/", "//")]))
     return out
 
 
@@ -72,7 +83,7 @@ def discovery(ctx):
                     trace = [{"cwd": cwd, "argv": dirargs + ["--json", "where"]}]
                     got = json.loads(w["stdout"])["ergo_dir"] if w["exit"] == 0 else None
                     if got != want_dir:
-                        kind = "relative" if name.startswith(("rel", "./")) else name
+                        kind = "relative" if name in ("rel", "rel/", "./rel") else name
                         ctx.violation("C18 discovery differs for a %s --dir spelling" % kind,
                                       "cwd=%s --dir %s: found %s (%s), the nearest enclosing .ergo of that directory is %s" % (cwd, dirargs[1:] or "-", got, w["stderr"].strip()[:80], want_dir),
                                       {"trace": trace})
